@@ -163,12 +163,15 @@ def digitsVal (ds : Str) : Nat := ds.foldl (fun a d => a * 10 + (d - 48).toNat) 
 
 def maxInt : Int := 9223372036854775807
 
+/-- the optional sign `strconv.Atoi` accepts -/
+def signOf : Str → Bool × Str
+  | 43 :: r => (false, r)
+  | 45 :: r => (true, r)
+  | r => (false, r)
+
 /-- `strconv.Atoi`: value and "error ≠ nil". A syntax error yields 0, a range error the clamped value. -/
 def atoi (s : Str) : Int × Bool :=
-  let (neg, ds) := match s with
-    | 43 :: r => (false, r)
-    | 45 :: r => (true, r)
-    | r => (false, r)
+  let (neg, ds) := signOf s
   if ds.isEmpty || !ds.all isDigit then (0, true) else
   let v : Int := digitsVal ds
   if neg then (if v > maxInt + 1 then (-(maxInt + 1), true) else (-v, false))
@@ -377,5 +380,21 @@ def locationSpec (t : RTarget) (reqHost reqEsc reqRaw reqQuery : Str) (loc : Str
 
 /-- the redirect status is 0 (no redirect) or a 3xx code -/
 def codeSpec (c : Int) : Bool := c == 0 || (300 ≤ c && c ≤ 399)
+
+/-- an optional leading `+` -/
+def dropPlus : Str → Str
+  | 43 :: r => r
+  | r => r
+
+/-- **"receives the configured 3xx status"**, read off the option text without `atoi`: an option that is a
+plain decimal number (an optional `+`, then digits only) with a value in 300..399 *is* the status; every other
+option text configures no redirect (code 0). -/
+def configuredCode (opt : Str) : Int :=
+  let body := dropPlus opt
+  if body.isEmpty || !body.all isDigit then 0 else
+  let v := digitsVal body
+  if 300 ≤ v && v ≤ 399 then (v : Int) else 0
+
+def codeSpecOpt (opt : Str) (c : Int) : Bool := c == configuredCode opt
 
 end Fabio.Model.C13
